@@ -7999,6 +7999,11 @@ class Use(SVGElement, Transformable, list):
             self, *args, **kwargs
         )  # Must go last, triggers, by_object, by_value, by_arg functions.
 
+    def __copy__(self):
+        use = Use(self)
+        use.extend(map(copy, self))
+        return use
+
     def property_by_object(self, s):
         SVGElement.property_by_object(self, s)
         Transformable.property_by_object(self, s)
